@@ -114,7 +114,10 @@ def C02(ctx):
                 "HE.retire", "HE.thread-exit", "HE.delete-licensed", "HE.protocol", "EBR.orphans", "EBR.epoch-slots", "EBR.thread-exit", "EBR.protocol",
                 "QSBR.protocol", "QSBR.thread-exit", "STAMP.", "LFRC.delete-licensed", "LFRC.thread-exit", "LFRC.protocol", "LIST.", "DEL.",
                 # a protection unit that is never given back (a leaked reference count, a slot that stays published) keeps objects undestroyed for ever
-                "K3.")
+                "K3.",
+                # the scan threshold is a function of the registered slot count: a count that only grows (blocks re-registered with their full size on
+                # adoption, less given back on exit) moves the threshold out of reach and nothing is destroyed any more (seed C02-8)
+                "HP.block-init", "HE.block-init")
     k1_rules(ctx, "C02")
     reclaim.reclaim_after_unlink(ctx, [".hpp"])
     scheme_rules(ctx)
@@ -133,6 +136,7 @@ def C04(ctx):
     queues.michael_scott(ctx)
     queues.ramalhete(ctx)
     queues.nikolaev(ctx)
+    queues.util_pure_functions(ctx)
     queues.swing_cas_expected(ctx)
     harris.use_after_move(ctx, FILES["C04"])
     harris.guard_deref_after_release(ctx, FILES["C04"])
@@ -148,6 +152,7 @@ def C05(ctx):
     k1_rules(ctx, "C05")
     queues.vyukov_bounded(ctx)
     queues.nikolaev(ctx)
+    queues.util_pure_functions(ctx)
     harris.use_after_move(ctx, FILES["C05"])
     return ("Decides the cell protocol of vyukov_bounded_queue (claim-before-touch, payload before sequence publication, sequence arithmetic by "
             "finite evaluation, weak vs strong failure conditions), construct-before-publish / destroy-before-free of nikolaev_bounded_queue, "
@@ -234,7 +239,8 @@ def C10(ctx):
     vyukov.grow_protocol(ctx)
     vyukov.hash_agreement(ctx)
     vyukov.extension_only_when_full(ctx)
-    ctx.only_skip = ("VHM.iterator-lock",)
+    queues.util_pure_functions(ctx)
+    ctx.only_skip = ("VHM.iterator-lock", "SCQ.")
     vyukov.iterator_rules(ctx)
     vyukov.cursor_prev_pairing(ctx)
     vyukov.cache_coherence(ctx)
@@ -295,6 +301,8 @@ def C12(ctx):
     deque.growth_bound(ctx)
     deque.index_width(ctx)
     deque.grow_exception_safety(ctx)
+    ctx.only_skip = ("SCQ.",)
+    queues.util_pure_functions(ctx)       # growing_circular_array selects its bucket with find_last_bit_set
     return ("Decides the structural half of the Chase-Lev deque: publish order, decrement/restore-or-commit pairing in try_pop, last-item CAS, "
             "thief read-before-CAS, mask kind discipline and (by exhaustive finite evaluation of the loop-free index arithmetic) that grow() re-indexes "
             "the live range with the same mapping as get_entry from every top offset; 64-bit monotone indices; allocation before bookkeeping in grow(); "
